@@ -30,7 +30,7 @@ RULES = {
     "R-C02-j": "the index-cube fill closures come in a traced and an untraced variant (timing diagnostics): both store the same cell values",
     "R-C02-l": "the index methods a cube reads (slices1d, sliced, items, get, common_rowids, abscissae, size) keep nothing on the index between calls (frame analysis shared with C17)",
     "R-C02-k": "per configuration, a region that receives weight values is a float region and one that receives fact values is float or has the summed array's dtype (an integer region truncates on the store)",
-    "R-C02-i": "pooled evaluation: reduce (marginal differencing) runs only after every sub-cube task has finished - blocking, re-raising dispatch on a pool created for the call (imported from the C16 analysis)",
+    "R-C02-i": "pooled evaluation: every write of a sub-cube task is task-local or goes to the task's own block (R-C16-a/b), and reduce (marginal differencing) runs only after every sub-cube task has finished - blocking, re-raising dispatch on a pool created for the call (imported from the C16 analysis)",
     "R-C02-h": "every region an aggregate allocates is 64-bit int/float (or the fact array's own dtype): wide enough for any row count and for the negative intermediate values of marginal differencing",
     "R-C02-g": "every sub-cube task walks its dimensions: the task function has no early return (one taken only when NO dimension has an entry is harmless; one taken when SOME dimension has none skips the margins of the others)",
     "R-C02-f": "walk schema (imported from the C14 analysis): every non-empty uncommon and marginal intersection is presented exactly once, with no early exit from the entry loops",
@@ -269,6 +269,12 @@ def main(tier):
         if o.rule in ("R-C16-c", "R-C16-e"):
             k16 += 1
             rep.add("R-C02-i", o.where, "[%s] %s" % (o.rule, o.construct), o.status, o.detail, True, o.witness)
+        elif o.rule in ("R-C16-a", "R-C16-b"):
+            # what a sub-cube task writes is its own block (or task-local): a helper cube / scratch object shared by the tasks
+            # lets one task walk another task's slices into its block
+            k16 += 1
+            rep.add("R-C02-i", o.where, "[%s] %s" % (o.rule, o.construct), o.status, o.detail, True,
+                    o.witness if o.status != "VIOLATED" else dict(o.witness or {}, history="pooled evaluation of a dimension with extra axes: a column receives another column's counts"))
     # the kernels the walk calls return freshly allocated results (a reused module-level workspace is overwritten by the
     # deeper intersections of a 3-D walk while the outer one is still the base): sa/cystate.py, as in R-C16-f / R-C17-e
     from sa import cyfront, cystate
